@@ -1150,7 +1150,7 @@ pub fn run(tier: &str, seed: u64, s: &mut Sink) {
     // runs in which some main events carry full wire and pad data that the library reconstructs to a vertex:
     // (number of files, number of runs, number of such events per run)
     let plan_sim: &[(usize, usize, usize)] =
-        if thorough { &[(1, 4, 8), (2, 4, 8), (3, 3, 6), (4, 1, 5)] } else { &[(1, 1, 5), (2, 1, 6), (3, 1, 5)] };
+        if thorough { &[(1, 6, 12), (2, 5, 10), (3, 3, 6), (4, 1, 6)] } else { &[(1, 1, 10), (2, 1, 6), (3, 1, 5)] };
     let (mut n_w, mut n_dec, mut n_vtx, mut n_rows) = (0, 0, 0, 0);
     for &(nf, count, nw) in plan_sim {
         for _ in 0..count {
